@@ -113,4 +113,33 @@ theorem store_spec (pool : Pool) (c : InConn) (hp : PInv pool) (he : EInv c.inb)
   unfold InConn.store
   exact ⟨w1, w2, by simp [InConn.view, w3], rfl⟩
 
+/-- `Peek(n)` beyond what is buffered is refused (`io.ErrShortBuffer`), and only then -/
+theorem peek_none_iff (c : InConn) (he : EInv c.inb) (n : Int) :
+    c.peek n = none ↔ n > (c.view.length : Int) := by
+  constructor
+  · intro h
+    by_cases hn : n ≤ (c.view.length : Int)
+    · rw [peek_spec c he n hn] at h; cases h
+    · omega
+  · intro h
+    have hb := ering_buffered c.inb he
+    have hv := view_length c
+    unfold InConn.peek
+    simp only [hb]
+    rw [if_pos (by omega)]
+
+/-- `Discard(n)` outside `1 .. buffered` (the branch `resetBuffer`): everything is dropped, the ring reset, and
+    the number of bytes that were buffered is returned -/
+theorem discard_reset_spec (pool : Pool) (c : InConn) (hp : PInv pool) (he : EInv c.inb) (n : Int)
+    (h : n ≤ 0 ∨ n > (c.view.length : Int)) :
+    PInv (c.discard pool n).1 ∧ EInv (c.discard pool n).2.1.inb ∧ (c.discard pool n).2.1.view = [] ∧
+    (c.discard pool n).2.2 = c.view.length := by
+  have hb := ering_buffered c.inb he
+  have hv := view_length c
+  obtain ⟨r1, r2⟩ := ering_reset_spec c.inb he
+  unfold InConn.discard
+  simp only [hb]
+  rw [if_pos (by omega)]
+  exact ⟨hp, r1, by simp [InConn.view, r2], by simp only; omega⟩
+
 end RcVerif.Lemmas.ConnIn
